@@ -70,13 +70,19 @@ def main():
     def rewrite(rel, subs, extra_import=None):
         p = os.path.join(repo, rel)
         s = open(p).read()
+        applied = 0
         for pat, rep, cnt in subs:
             n = len(re.findall(pat, s))
-            if cnt is not None and n != cnt:
+            if cnt is not None and cnt != -1 and n != cnt:
                 die("%s: pattern %r matched %d times, expected %d" % (rel, pat, n, cnt))
             if cnt is None and n == 0:
                 die("%s: pattern %r did not match" % (rel, pat))
+            if cnt == -1 and n == 0:
+                continue  # optional seam: a tree that no longer has the construct does not need it
             s = re.sub(pat, rep, s)
+            applied += n
+        if applied == 0:
+            return
         if extra_import:
             m = re.search(r'^import \(\n', s, re.M)
             if not m:
@@ -111,6 +117,12 @@ def main():
     rewrite("pkg/trie/trie.go", [
         (r"(?m)^(\s*)go (s\.update\(lnode.*\))\n\s*go (s\.update\(rnode.*\))$",
          r"\1simgo.Pair(func() { \2 }, func() { \3 })", 1)], simgo)
+
+    # the vote ranking is built by walking a Go map (random order) and then sorted with an unstable
+    # sort: which pairs the comparison sees, and how ties end up, depends on that order. Under
+    # simulation the order comes from the case seed (simgo.Keys), so that a run replays exactly.
+    rewrite("contract/system/voteresult.go", [
+        (r"(?m)^(\t+)for k, v := range vr\.rmap \{$", r"\1for _, k := range simgo.Keys(vr.rmap) {\n\1\tv := vr.rmap[k]", -1)], simgo)
 
     # SYNC world: inside a synctest bubble code takes no time, so the hash fetcher's timer (armed in the
     # same instant as the request) fires at exactly reqTime+timeout and the strict comparison, which in
